@@ -59,6 +59,10 @@ def parse(stmt, line):
         if name == "modes":
             return ("modesets", [None if t == "err" else [Fraction(x) for x in t.split("|")] for t in line.split()])
         return ("vals", ["err" if t == "err" else pval(t) for t in line.split()])
+    if cmd == "stepchanges":
+        return ("pairs", [(Fraction(t.split(":")[0]), pval(t.split(":")[1])) for t in line.split()])
+    if cmd == "deltaroundtrip":
+        return parse("frame x", line)
     if cmd == "rolling":
         return ("pairs", [(Fraction(t.split(":")[0]), pval(t.split(":")[1])) for t in line.split()])
     if cmd == "describe":
@@ -67,7 +71,7 @@ def parse(stmt, line):
         return ("corrparts", [pval(t) for t in line.split()])
     if cmd == "vsums":
         return ("pairs", [tuple(Fraction(x) for x in t.split(":")) for t in line.split()])
-    if cmd in ("ident", "bool", "nsteps", "closed", "layer", "layerv"):
+    if cmd in ("ident", "bool", "nsteps", "closed", "layer", "layerv", "consistent"):
         return ("text", line)
     if line == "ok":
         return ("ok",)
